@@ -967,12 +967,13 @@ class CliSim(Simulator):
 
     def rule(self, prop):
         base = ("one run = one argument vector generated from a grammar over the five sub-commands and global options "
-                "(values on both sides of every validator bound; -f path states new/existing/directory/missing parent/"
-                "read-only parent/dangling symlink/symlink to file/.. spelling/trailing slash/empty) executed by main() "
-                "in-process on the in-memory VFS with a seeded entropy device; batches: argv (fault-free), race (an "
+                "(values on both sides of every validator bound; passwords with edge/inner whitespace, case and combining "
+                "marks; argparse re-spellings: unambiguous abbreviations, --opt=value, -fVALUE, overridden repeats; -f path states new/existing/directory/missing parent/"
+                "read-only parent/dangling symlink/symlink to file/.. spelling/symlinked parent/~/trailing slash/empty) "
+                "executed as module __main__ (runpy) in-process on the in-memory VFS with a seeded entropy device; batches: argv (fault-free), race (an "
                 "environment actor creates a file/dir/symlink at the target or removes/chmods its parent at VFS call "
-                "boundary g), io (ENOSPC after k bytes, EIO on write/close, EMFILE/EACCES on open, EPIPE/EIO on stdout, "
-                "KeyboardInterrupt at boundary g). ")
+                "boundary g), io (ENOSPC after k bytes, EIO on write/close, EMFILE/EACCES on open, EPIPE/EIO on stdout write, "
+                "EPIPE on explicit flush, KeyboardInterrupt at boundary g). ")
         if prop == "C20":
             return base + ("Oracle: refused (status!=0, no wallet data on stdout, no new file) OR served (status 0, output "
                            "== json.dumps(API result, indent=4) for the same secret/network/account/interval, library-filtered "
